@@ -1192,6 +1192,8 @@ func TestVerifC26(t *testing.T) {
 		spec, picks := genC26SeqCase(c)
 		runC26Seq(c, spec, picks)
 	})
+	// lookups on an EpochState reopened over the same database (zz_verif_c26_restart_test.go)
+	registerC26Restart(r)
 	// skipped epochs (zz_verif_c26_skipped_test.go): last, a process-fatal lock error would end the child
 	registerC26Skipped(r)
 }
